@@ -420,6 +420,24 @@ Section RunGen.
       rewrite (exec_final_nth _ _ _ _ _ _ _ _ Hex). apply nth_chks_In. apply le_n. }
     rewrite Hp. reflexivity.
   Qed.
+
+  (** [run_split] for such a driver: cut at any performed iteration j *)
+  Lemma drun_split cs c idx c' idx' ls :
+    drun cs c idx = Ok (c', idx', ls) ->
+    forall j, j <= length ls ->
+    exists idxj, drun (firstn j cs) c idx = Ok (nth j (chks (prep c) ls) (prep c), idxj, firstn j ls) /\
+      ((j < length ls \/ length ls = length cs) ->
+       drun (skipn j cs) (nth j (chks (prep c) ls) (prep c)) idxj = Ok (c', idx', skipn j ls)).
+  Proof.
+    unfold drun. intros H j Hj. destruct (run_prefix _ _ _ _ _ _ H j Hj) as (idxj & P).
+    exists idxj. split; [exact P|]. intros Hcond.
+    destruct (run_split _ _ _ _ _ _ H j Hj Hcond) as (idxj' & P' & S'). rewrite P in P'.
+    injection P' as <-.
+    apply run_exec in H as (g & rest & Hg & Hex).
+    assert (Hp : prep (nth j (chks (prep c) ls) (prep c)) = nth j (chks (prep c) ls) (prep c)).
+    { eapply exec_prepped; [exact Hex|apply prep_prep|apply nth_chks_In; exact Hj]. }
+    rewrite Hp. exact S'.
+  Qed.
 End RunGen.
 
 (* with Leibniz equality as the relation, equivalent logs are equal *)
